@@ -14,6 +14,9 @@ type ParseCase struct {
 	Program
 	Argv   []string `json:"argv"`
 	Source string   `json:"source,omitempty"`
+	// Builtin: valued options and arguments are the library's own []string containers (StringsOpt/StringsArg, all
+	// declared with one shared default slice) instead of recorder value types
+	Builtin bool `json:"builtin,omitempty"`
 }
 
 // Key identifies the case for distinctness.
@@ -131,7 +134,12 @@ func CheckAccept(prop string, c *ParseCase, st *Stats) (*Violation, *Outcome, Cl
 		return nil, nil, cl
 	}
 	Begin(prop, "parse", c)
-	out := RunReal(c.D, c.SpecStr, c.Argv)
+	var out Outcome
+	if c.Builtin {
+		out = RunRealBuiltin(c.D, c.SpecStr, c.Argv)
+	} else {
+		out = RunReal(c.D, c.SpecStr, c.Argv)
+	}
 	End()
 	if out.Panic != "" {
 		return Violf("Run panicked (%s) on spec %q argv %q [%s]", out.Panic, c.SpecStr, c.Argv, FmtDecls(c.D)), &out, cl
@@ -251,6 +259,8 @@ func CheckC02(c *ParseCase, st *Stats) *Violation {
 		want := []string(nil)
 		if o.Env {
 			want = []string{EnvValue(o)}
+		} else if c.Builtin && !o.Bool {
+			want = []string{"dflt"}
 		}
 		if !reflect.DeepEqual(out.Raw[key], want) && !(len(out.Raw[key]) == 0 && len(want) == 0) {
 			return Violf("option %s was not given on the command line but holds %q (declaration-time content %q); spec %q argv %q",
@@ -259,8 +269,14 @@ func CheckC02(c *ParseCase, st *Stats) *Violation {
 	}
 	for i := range c.D.Args {
 		key := c.D.ArgKey(i)
-		if _, set := out.Bind[key]; !set && len(out.Raw[key]) != 0 {
-			return Violf("argument %s not bound by the command line but holds %q; spec %q argv %q", key, out.Raw[key], c.SpecStr, c.Argv)
+		if _, set := out.Bind[key]; !set {
+			if c.Builtin {
+				if !reflect.DeepEqual(out.Raw[key], []string{"dflt"}) {
+					return Violf("argument %s not bound by the command line but holds %q instead of its declared default [dflt]; spec %q argv %q", key, out.Raw[key], c.SpecStr, c.Argv)
+				}
+			} else if len(out.Raw[key]) != 0 {
+				return Violf("argument %s not bound by the command line but holds %q; spec %q argv %q", key, out.Raw[key], c.SpecStr, c.Argv)
+			}
 		}
 	}
 	ok := Verifies(c.D, c.AST, c.Argv, out.Bind, Quirks{})
@@ -277,6 +293,9 @@ func CheckC02(c *ParseCase, st *Stats) *Violation {
 			fmtBind(out.Bind), c.SpecStr, c.Argv, FmtDecls(c.D))
 	}
 	bookShapeClasses(c, st)
+	if c.Builtin {
+		st.Class("containers:builtin-strings-sharing-one-default")
+	}
 	// non-trivial: the accepting path needed a real choice (several live configurations) or surgery on a folded token
 	if cl.MaxLive >= 2 || cl.Skips > 0 {
 		st.NonTrivial(c.Key(), func() interface{} {
